@@ -2,7 +2,9 @@ package fakes17
 
 // minich.go — a reference interpreter for the small SELECT subset the reader's selector planners emit
 // (WITH sub-queries, WHERE/GROUP BY/HAVING/ORDER BY/LIMIT, comparisons, and/or, IN lists and IN (with-name),
-// match(), bitShiftLeft(), groupBitOr(), toUInt64(), intDiv(), %, +, -, *), over in-memory tables.
+// match(), bitShiftLeft(), groupBitOr(), toUInt64(), intDiv(), %, +, -, *, /, the aggregates argMax, argMaxMerge,
+// countMerge, count, min, max, sum; array subscripts, splitByChar, format, (expr as name), arrayExists(x -> …, arr) with
+// tuple access x.1), over in-memory tables.
 // It is an oracle device: the text the real planner produced is executed on a generated database and the
 // rows go back to the real reader code through the scripted database/sql driver.
 //
@@ -11,7 +13,8 @@ package fakes17
 //   - bitShiftLeft(a, n) has the type of a: bits shifted out of that width are lost;
 //   - a + b is computed in a wider type (no wrap-around for the sums that occur);
 //   - match(haystack, pattern) is an unanchored RE2 search;
-//   - select aliases are visible in WHERE;
+//   - select aliases are visible in WHERE, GROUP BY and ORDER BY, and an unqualified name that is an alias means the
+//     aliased expression even when the source has a column of that name (`tbl.col` is the column);
 //   - string literals use backslash escapes.
 // Anything outside the subset is an error (fail closed), never a guess.
 
@@ -21,6 +24,7 @@ import (
 	"math/big"
 	"regexp"
 	"sort"
+	"strconv"
 	"strings"
 )
 
@@ -43,11 +47,11 @@ type Value struct {
 	Raw  any
 }
 
-func Int(i int64) Value      { return Value{Kind: VInt, I: big.NewInt(i), Bits: 64} }
-func Uint(u uint64) Value    { return Value{Kind: VInt, I: new(big.Int).SetUint64(u), Bits: 64} }
-func Str(s string) Value     { return Value{Kind: VStr, S: s} }
-func Float(f float64) Value  { return Value{Kind: VFloat, F: f} }
-func RawValue(x any) Value   { return Value{Kind: VRaw, Raw: x} }
+func Int(i int64) Value     { return Value{Kind: VInt, I: big.NewInt(i), Bits: 64} }
+func Uint(u uint64) Value   { return Value{Kind: VInt, I: new(big.Int).SetUint64(u), Bits: 64} }
+func Str(s string) Value    { return Value{Kind: VStr, S: s} }
+func Float(f float64) Value { return Value{Kind: VFloat, F: f} }
+func RawValue(x any) Value  { return Value{Kind: VRaw, Raw: x} }
 func u8(b bool) Value {
 	if b {
 		return Value{Kind: VInt, I: big.NewInt(1), Bits: 8}
@@ -194,7 +198,7 @@ func lexSQL(q string) ([]tok, error) {
 			res = append(res, tok{"id", q[i:j]})
 			i = j
 		default:
-			for _, s := range []string{"==", "!=", ">=", "<=", "<>", "(", ")", ",", "+", "-", "*", "/", "%", "=", ">", "<"} {
+			for _, s := range []string{"->", "==", "!=", ">=", "<=", "<>", "(", ")", "[", "]", ",", "+", "-", "*", "/", "%", "=", ">", "<"} {
 				if strings.HasPrefix(q[i:], s) {
 					res = append(res, tok{"sym", s})
 					i += len(s)
@@ -474,7 +478,27 @@ func (p *parser) expr(min int) (*Node, error) {
 	}
 }
 
+// unary = primary followed by any number of [index] (ClickHouse array subscript, 1-based)
 func (p *parser) unary() (*Node, error) {
+	n, err := p.primary()
+	if err != nil {
+		return nil, err
+	}
+	for p.sym("[") {
+		p.i++
+		idx, err := p.expr(0)
+		if err != nil {
+			return nil, err
+		}
+		if err := p.eat("]"); err != nil {
+			return nil, err
+		}
+		n = &Node{Kind: "index", Args: []*Node{n, idx}}
+	}
+	return n, nil
+}
+
+func (p *parser) primary() (*Node, error) {
 	t := p.peek()
 	switch {
 	case t.k == "sym" && t.s == "-":
@@ -504,12 +528,28 @@ func (p *parser) unary() (*Node, error) {
 		if err != nil {
 			return nil, err
 		}
+		if p.kw("as") { // (expr as name): an alias defined inside an expression
+			p.i++
+			if p.peek().k != "id" {
+				return nil, fmt.Errorf("minich: alias name expected")
+			}
+			e = &Node{Kind: "alias", S: p.peek().s, Args: []*Node{e}}
+			p.i++
+		}
 		return e, p.eat(")")
 	case t.k == "id":
 		if stopWords[strings.ToLower(t.s)] {
 			return nil, fmt.Errorf("minich: unexpected keyword %q", t.s)
 		}
 		p.i++
+		if p.sym("->") { // lambda: x -> body (only as a function argument)
+			p.i++
+			body, err := p.expr(0)
+			if err != nil {
+				return nil, err
+			}
+			return &Node{Kind: "lambda", S: t.s, Args: []*Node{body}}, nil
+		}
 		if p.sym("(") {
 			p.i++
 			n := &Node{Kind: "call", S: t.s}
@@ -539,16 +579,31 @@ type DB struct {
 }
 
 type env struct {
-	db    *DB
-	sel   *Select
-	row   Row     // current source row (nil for a group)
-	group []Row   // rows of the current group (aggregates)
-	out   Row     // already computed output columns (ORDER BY)
-	subs  map[string][]Value
-	depth int
+	db        *DB
+	sel       *Select
+	row       Row   // current source row (nil for a group)
+	group     []Row // rows of the current group (aggregates)
+	out       Row   // already computed output columns (ORDER BY)
+	subs      map[string][]Value
+	depth     int
+	bind      map[string]Value // lambda variables and (expr as name) aliases
+	aliasBusy map[string]bool  // aliases being expanded (an alias whose expression names itself unqualified is the column)
 }
 
 func (e *env) col(name string) (Value, error) {
+	if v, ok := e.bind[name]; ok {
+		return v, nil
+	}
+	if j := strings.IndexByte(name, '.'); j > 0 { // x.1: element of the tuple bound to a lambda variable
+		if tv, ok := e.bind[name[:j]]; ok {
+			elems, ok := tv.Raw.([]Value)
+			k, err := strconv.Atoi(name[j+1:])
+			if tv.Kind != VRaw || !ok || err != nil || k < 1 || k > len(elems) {
+				return Value{}, fmt.Errorf("minich: bad tuple access %s", name)
+			}
+			return elems[k-1], nil
+		}
+	}
 	if e.out != nil {
 		if v, ok := e.out[name]; ok {
 			return v, nil
@@ -557,6 +612,22 @@ func (e *env) col(name string) (Value, error) {
 	short := name
 	if j := strings.IndexByte(name, '.'); j >= 0 && (name[:j] == e.sel.alias || name[:j] == e.sel.from) {
 		short = name[j+1:]
+	} else if j < 0 && e.depth < 4 {
+		// ClickHouse (prefer_column_name_to_alias = 0): an unqualified name that is a select alias stands for the
+		// aliased expression, also when the source has a column of that name; `tbl.col` is the source column.
+		for _, it := range e.sel.cols {
+			if it.alias == name && !(it.e.Kind == "id" && it.e.S == name) && !e.aliasBusy[name] {
+				if e.aliasBusy == nil {
+					e.aliasBusy = map[string]bool{}
+				}
+				e.aliasBusy[name] = true
+				e.depth++
+				v, err := e.eval(it.e)
+				e.depth--
+				delete(e.aliasBusy, name)
+				return v, err
+			}
+		}
 	}
 	row := e.row
 	if row == nil && len(e.group) > 0 {
@@ -694,6 +765,20 @@ func (e *env) eval(n *Node) (Value, error) {
 			}
 			return u8(c < 0), nil
 		}
+		if (a.Kind == VFloat || b.Kind == VFloat) && (a.Kind == VFloat || a.Kind == VInt) && (b.Kind == VFloat || b.Kind == VInt) {
+			x, y := toF(a), toF(b)
+			switch n.S {
+			case "+":
+				return Float(x + y), nil
+			case "-":
+				return Float(x - y), nil
+			case "*":
+				return Float(x * y), nil
+			case "/":
+				return Float(x / y), nil
+			}
+			return Value{}, fmt.Errorf("minich: %s on floats", n.S)
+		}
 		if a.Kind != VInt || b.Kind != VInt {
 			return Value{}, fmt.Errorf("minich: arithmetic on non-integers")
 		}
@@ -718,6 +803,34 @@ func (e *env) eval(n *Node) (Value, error) {
 		return Value{Kind: VInt, I: r, Bits: widen(a, b)}, nil
 	case "call":
 		return e.call(n)
+	case "alias":
+		v, err := e.eval(n.Args[0])
+		if err != nil {
+			return v, err
+		}
+		if e.bind == nil {
+			e.bind = map[string]Value{}
+		}
+		e.bind[n.S] = v
+		return v, nil
+	case "index":
+		a, err := e.eval(n.Args[0])
+		if err != nil {
+			return a, err
+		}
+		k, err := e.eval(n.Args[1])
+		if err != nil {
+			return k, err
+		}
+		elems, ok := a.Raw.([]Value)
+		if a.Kind != VRaw || !ok || k.Kind != VInt {
+			return Value{}, fmt.Errorf("minich: subscript of a non-array")
+		}
+		i := int(k.I.Int64())
+		if i < 1 || i > len(elems) {
+			return Str(""), nil // a subscript past the end of an Array(String) gives the default value ''
+		}
+		return elems[i-1], nil
 	}
 	return Value{}, fmt.Errorf("minich: cannot evaluate %s", n.Kind)
 }
@@ -746,6 +859,41 @@ func (e *env) call(n *Node) (Value, error) {
 			}
 		}
 		return Value{Kind: VInt, I: acc, Bits: bits}, nil
+	}
+	if aggregates[name] {
+		return e.aggregate(n)
+	}
+	if name == "arrayExists" {
+		if len(n.Args) != 2 || n.Args[0].Kind != "lambda" {
+			return Value{}, fmt.Errorf("minich: arrayExists(x -> cond, array) expected")
+		}
+		arr, err := e.eval(n.Args[1])
+		if err != nil {
+			return arr, err
+		}
+		elems, ok := arr.Raw.([]Value)
+		if arr.Kind != VRaw || !ok {
+			return Value{}, fmt.Errorf("minich: arrayExists over a non-array")
+		}
+		for _, el := range elems {
+			sub := &env{db: e.db, sel: e.sel, row: e.row, group: e.group, subs: e.subs, bind: map[string]Value{}}
+			for k, v := range e.bind {
+				sub.bind[k] = v
+			}
+			sub.bind[n.Args[0].S] = el
+			v, err := sub.eval(n.Args[0].Args[0])
+			if err != nil {
+				return v, err
+			}
+			ok, err := v.truthy()
+			if err != nil {
+				return Value{}, err
+			}
+			if ok {
+				return u8(true), nil
+			}
+		}
+		return u8(false), nil
 	}
 	args := make([]Value, len(n.Args))
 	for i, a := range n.Args {
@@ -776,6 +924,34 @@ func (e *env) call(n *Node) (Value, error) {
 		r := new(big.Int).Lsh(args[0].I, uint(args[1].I.Uint64()))
 		mask := new(big.Int).Sub(new(big.Int).Lsh(big.NewInt(1), uint(bits)), big.NewInt(1))
 		return Value{Kind: VInt, I: r.And(r, mask), Bits: bits}, nil // result type = type of the first argument
+	case "splitByChar":
+		if len(args) != 2 || args[0].Kind != VStr || args[1].Kind != VStr || len(args[0].S) != 1 {
+			return Value{}, fmt.Errorf("minich: splitByChar(char, String) expected")
+		}
+		var parts []Value
+		for _, p := range strings.Split(args[1].S, args[0].S) {
+			parts = append(parts, Str(p))
+		}
+		return RawValue(parts), nil
+	case "format":
+		if len(args) < 1 || args[0].Kind != VStr {
+			return Value{}, fmt.Errorf("minich: format(pattern, …) expected")
+		}
+		pieces := strings.Split(args[0].S, "{}")
+		if len(pieces) != len(args) {
+			return Value{}, fmt.Errorf("minich: format: %d placeholders, %d arguments", len(pieces)-1, len(args)-1)
+		}
+		var b strings.Builder
+		for i, p := range pieces {
+			b.WriteString(p)
+			if i+1 < len(args) {
+				if args[i+1].Kind != VStr {
+					return Value{}, fmt.Errorf("minich: format of a non-string")
+				}
+				b.WriteString(args[i+1].S)
+			}
+		}
+		return Str(b.String()), nil
 	case "toUInt64":
 		if len(args) != 1 || args[0].Kind != VInt {
 			return Value{}, fmt.Errorf("minich: toUInt64(int) expected")
@@ -794,6 +970,126 @@ func (e *env) call(n *Node) (Value, error) {
 		return f(args)
 	}
 	return Value{}, fmt.Errorf("minich: unknown function %s", name)
+}
+
+var aggregates = map[string]bool{"argMax": true, "argMaxMerge": true, "min": true, "max": true, "sum": true, "countMerge": true, "count": true}
+
+// ArgMaxState is the state of argMaxState(value, ts): the value seen with the greatest ts.
+type ArgMaxState struct {
+	Val float64
+	Ts  int64
+}
+
+func toF(v Value) float64 {
+	if v.Kind == VFloat {
+		return v.F
+	}
+	f, _ := new(big.Float).SetInt(v.I).Float64()
+	return f
+}
+
+// aggregate functions over the rows of the current group. argMax(a, b): the a of the first row (in source order)
+// whose b is the greatest (ClickHouse replaces the kept pair only for a strictly greater b); argMaxMerge(state): the
+// same over states; countMerge(state) = sum of the partial counts; min/max/sum over floats or integers.
+func (e *env) aggregate(n *Node) (Value, error) {
+	if e.group == nil || e.row != nil {
+		return Value{}, fmt.Errorf("minich: aggregate %s outside GROUP BY", n.S)
+	}
+	var per [][]Value
+	for _, r := range e.group {
+		sub := &env{db: e.db, sel: e.sel, row: r, subs: e.subs}
+		vals := make([]Value, len(n.Args))
+		for i, a := range n.Args {
+			v, err := sub.eval(a)
+			if err != nil {
+				return v, err
+			}
+			vals[i] = v
+		}
+		per = append(per, vals)
+	}
+	want := func(k int) error {
+		if len(n.Args) != k {
+			return fmt.Errorf("minich: %s takes %d argument(s)", n.S, k)
+		}
+		return nil
+	}
+	switch n.S {
+	case "count":
+		return Uint(uint64(len(per))), nil
+	case "argMax":
+		if err := want(2); err != nil {
+			return Value{}, err
+		}
+		best := per[0]
+		for _, p := range per[1:] {
+			c, err := compare(p[1], best[1])
+			if err != nil {
+				return Value{}, err
+			}
+			if c > 0 {
+				best = p
+			}
+		}
+		return best[0], nil
+	case "argMaxMerge":
+		if err := want(1); err != nil {
+			return Value{}, err
+		}
+		var best *ArgMaxState
+		for _, p := range per {
+			st, ok := p[0].Raw.(ArgMaxState)
+			if p[0].Kind != VRaw || !ok {
+				return Value{}, fmt.Errorf("minich: argMaxMerge of a non-state")
+			}
+			if best == nil || st.Ts > best.Ts {
+				x := st
+				best = &x
+			}
+		}
+		return Float(best.Val), nil
+	case "countMerge":
+		if err := want(1); err != nil {
+			return Value{}, err
+		}
+		acc := new(big.Int)
+		for _, p := range per {
+			if p[0].Kind != VInt {
+				return Value{}, fmt.Errorf("minich: countMerge of a non-state")
+			}
+			acc.Add(acc, p[0].I)
+		}
+		return Value{Kind: VInt, I: acc, Bits: 64}, nil
+	case "min", "max", "sum":
+		if err := want(1); err != nil {
+			return Value{}, err
+		}
+		acc := per[0][0]
+		if acc.Kind != VFloat && acc.Kind != VInt {
+			return Value{}, fmt.Errorf("minich: %s of a non-number", n.S)
+		}
+		for _, p := range per[1:] {
+			v := p[0]
+			if v.Kind != acc.Kind {
+				return Value{}, fmt.Errorf("minich: %s over mixed types", n.S)
+			}
+			switch n.S {
+			case "sum":
+				if v.Kind == VFloat {
+					acc = Float(acc.F + v.F)
+				} else {
+					acc = Value{Kind: VInt, I: new(big.Int).Add(acc.I, v.I), Bits: 64}
+				}
+			default:
+				c, _ := compare(v, acc)
+				if (n.S == "min" && c < 0) || (n.S == "max" && c > 0) {
+					acc = v
+				}
+			}
+		}
+		return acc, nil
+	}
+	return Value{}, fmt.Errorf("minich: unknown aggregate %s", n.S)
 }
 
 // Exec parses and runs one SELECT; returns column names and rows.
